@@ -54,11 +54,11 @@ Proof.
     destruct (Nat.le_ge_cases f0 (S (length bs))) as [LE|GE].
     - rewrite (fields_mono (dec_node f0 sw) (dec_node (S (length bs)) sw) sw
                  (fun T st NF => dec_node_mono sw f0 (S (length bs)) T st LE NF) f0 (S (length bs)) _ _ LE);
-        [exact DP | rewrite DP; discriminate].
+        [exact DP | intros X; assert (Y := eq_trans (eq_sym X) DP); discriminate Y].
     - rewrite <- DP. symmetry.
       apply (fields_mono (dec_node (S (length bs)) sw) (dec_node f0 sw) sw
                (fun T st NF => dec_node_mono sw (S (length bs)) f0 T st GE NF) (S (length bs)) f0 _ _ GE).
-      intros X. rewrite X in F. exact F. }
+      intros X. exact (eq_ind _ fine F _ X). }
   rewrite E. unfold matrix_vals in VM.
   destruct vs' as [|[[r0|?|?]|?] [|[[c0|?|?]|?] [|[?|rows'] [|? ?]]]]; try discriminate VM.
   cbn [map fval_map sval_map] in VM. injection VM as -> -> VM.
